@@ -52,6 +52,19 @@ Section ArrayModel.
     if arr_len d =? 0 then Err IndexError else
     do x <- arr_getitem d i; do d' <- arr_delitem d i; Ok (x, d').
 
+  (* __getitem__(slice): start, stop, step = key.indices(len(self)); step 1: one slice of the data;
+     otherwise: for s in range(start*w, stop*w, step*w): d.append(self.data[s:s+w]) *)
+  Fixpoint collect_blocks (d : bits) (starts : list Z) : res bits :=
+    match starts with
+    | [] => Ok []
+    | s :: r => do b <- seq_slice false d (mkslice (Some s) (Some (s + w)) None);
+                do rest <- collect_blocks d r; Ok (b ++ rest)
+    end.
+  Definition arr_getslice (d : bits) (k : pyslice) : res bits :=
+    do3 (a, b, c) <- slice_indices k (arr_len d);
+    if c =? 1 then seq_slice false d (mkslice (Some (a * w)) (Some (b * w)) None)
+    else collect_blocks d (range_list (a * w) (b * w) (c * w)).
+
   (* __getitem__(slice) with step 1 *)
   Definition arr_getslice1 (d : bits) (start stop : Z) : res bits :=
     seq_slice false d (mkslice (Some (start * w)) (Some (stop * w)) None).
